@@ -49,6 +49,7 @@ import (
 	"github.com/regen-network/regen-ledger/x/ecocredit/v3/basket"
 	"github.com/regen-network/regen-ledger/x/ecocredit/v3/marketplace"
 	ecomodule "github.com/regen-network/regen-ledger/x/ecocredit/v3/module"
+	intertxtypes "github.com/regen-network/regen-ledger/x/intertx/types/v1"
 
 	"github.com/cosmos/cosmos-sdk/orm/model/ormdb"
 )
@@ -106,6 +107,7 @@ type App struct {
 	dat  dataKeeper
 	dmod *datamodule.Module
 	weak *WeakHash
+	itx  *intertxEnv
 
 	baseStore   baseapi.StateStore
 	basketStore basketapi.StateStore
@@ -202,6 +204,9 @@ func NewApp(db dbm.DB, weak *WeakHash) *App {
 	cfg := sdkmodule.NewConfigurator(a.cdc, a.ba.MsgServiceRouter(), a.ba.GRPCQueryRouter())
 	a.eco.RegisterServices(cfg)
 	banktypes.RegisterMsgServer(cfg.MsgServer(), bankkeeper.NewMsgServerImpl(a.bk))
+	intertxtypes.RegisterTypes(a.reg)
+	a.itx = newIntertxEnv(a.cdc)
+	intertxtypes.RegisterMsgServer(cfg.MsgServer(), a.itx.k)
 
 	if weak == nil {
 		a.dmod = datamodule.NewModule(a.keys[data.ModuleName], a.ak, a.bk)
